@@ -32,6 +32,12 @@ pub struct Case {
     /// set_fast_load with the values already in force): a no-op for the sound the program makes
     #[serde(default)]
     pub reassert_settings_before_frame: Option<u8>,
+    /// (a, b), a < b < frames: the host switches sound off (set_sound(false)) before frame a and on
+    /// again before frame b, draining at every frame boundary all the time. What is delivered for
+    /// the frames in between is not judged; from frame b on every frame must again deliver exactly
+    /// its own floor(rate/50) samples
+    #[serde(default)]
+    pub sound_off: Option<(u8, u8)>,
 }
 
 const BASE: u16 = 0x8000;
@@ -142,19 +148,34 @@ pub fn check(c: &Case, rec: &mut Rec) -> Result<(), String> {
             }
         }
     }
+    // stream[k] for k in frame f's slot [f*n, (f+1)*n); judged[f] = false for frames emulated with
+    // sound switched off by the host (their slots are filled with NaN and skipped)
     let mut stream: Vec<f32> = Vec::new();
+    let mut judged: Vec<bool> = Vec::new();
     let mut total: u64 = 0;
     let mut x = c.start_t as u64 | 1;
+    let off = c.sound_off.filter(|(a, b)| a < b && (*b as u64) < frames && c.drain % 3 == 0);
     for f in 0..frames {
-        if c.reassert_settings_before_frame.map(|k| k as u64 % frames) == Some(f) {
+        if c.reassert_settings_before_frame.map(|k| k as u64 % frames) == Some(f) && off.is_none() {
             e.set_ay_enabled(c.ay);
             e.set_sound(true);
             e.set_fast_load(false);
             rec.class("settings-re-asserted-mid-run");
         }
+        if let Some((a, b)) = off {
+            if f == a as u64 {
+                e.set_sound(false);
+                rec.class("sound-switched-off-and-on-again");
+            }
+            if f == b as u64 {
+                e.set_sound(true);
+            }
+        }
+        let is_off = off.map(|(a, b)| f >= a as u64 && f < b as u64).unwrap_or(false);
         mach::run_frames(&mut e, 1)?;
         match c.drain % 3 {
             0 => {
+                let mut got: Vec<f32> = Vec::new();
                 while let Some(s) = e.next_audio_sample() {
                     if !s.left.is_finite() || !s.right.is_finite() {
                         return Err(format!("frame {}: non-finite sample", f));
@@ -162,19 +183,26 @@ pub fn check(c: &Case, rec: &mut Rec) -> Result<(), String> {
                     if s.left != s.right && !c.ay {
                         return Err(format!("frame {}: beeper-only audio has left {} != right {}", f, s.left, s.right));
                     }
-                    stream.push(s.left);
+                    got.push(s.left);
+                }
+                judged.push(!is_off);
+                if is_off {
+                    stream.extend(std::iter::repeat(f32::NAN).take(n as usize));
+                } else {
+                    // exactly N per completed frame, as the property says: the few T-states by which the
+                    // frame-crossing instruction overshoots the boundary produce no sample before the drain
+                    // (60 000 cases over 6 seeds and the whole rate range on the unchanged tree agree)
+                    if got.len() as u64 != n {
+                        return Err(format!(
+                            "frame {} (drained at every frame boundary{}): the host received {} samples for it; floor({}/50) = {}",
+                            f,
+                            match off { Some((a, b)) => format!(", sound switched off before frame {} and on again before frame {}", a, b), None => String::new() },
+                            got.len(), c.rate, n
+                        ));
+                    }
+                    stream.extend_from_slice(&got);
                 }
                 total = stream.len() as u64;
-                // exactly N per completed frame, as the property says: the few T-states by which the
-                // frame-crossing instruction overshoots the boundary produce no sample before the drain
-                // (60 000 cases over 6 seeds and the whole rate range on the unchanged tree agree)
-                let slack = 0u64;
-                if total < (f + 1) * n || total > (f + 1) * n + slack {
-                    return Err(format!(
-                        "after {} frames drained at every frame boundary the host received {} samples; floor({}/50) = {} per frame gives {} (tolerance {})",
-                        f + 1, total, c.rate, n, (f + 1) * n, slack
-                    ));
-                }
             }
             1 => {}
             _ => {
@@ -231,6 +259,9 @@ pub fn check(c: &Case, rec: &mut Rec) -> Result<(), String> {
     if c.beeper && !c.ay {
         for (k, s) in stream.iter().enumerate().take((frames * n) as usize) {
             let f = k as u64 / n;
+            if !judged[f as usize] {
+                continue;
+            }
             let kk = k as u64 % n;
             let t = (f * frame_len) as f64 + kk as f64 * per_sample;
             // accept the level of any state current within one sample period (+ an I/O cycle) of t
@@ -258,7 +289,7 @@ pub fn check(c: &Case, rec: &mut Rec) -> Result<(), String> {
         }
         rec.class("speaker-tracked");
     } else if !c.beeper && !c.ay {
-        if stream.iter().any(|s| *s != 0.0) {
+        if stream.iter().any(|s| *s != 0.0 && !s.is_nan()) {
             return Err("beeper and AY disabled but samples are not zero".into());
         }
         rec.class("all-sources-off");
@@ -270,7 +301,7 @@ pub fn check(c: &Case, rec: &mut Rec) -> Result<(), String> {
         }
         rec.class("ay-enabled");
     }
-    if c.volume == 0 && stream.iter().any(|s| *s != 0.0) {
+    if c.volume == 0 && stream.iter().any(|s| *s != 0.0 && !s.is_nan()) {
         return Err("volume 0 but samples are not exactly 0".into());
     }
     if edges_far_apart >= 2 && c.rate != 44100 {
@@ -300,7 +331,16 @@ pub fn case_strategy() -> impl Strategy<Value = Case> {
     )
         .prop_map(|(machine, rate, volume, beeper, ay, segs, idle_units, frames, drain, start_t)| {
             let reassert_settings_before_frame = if start_t % 3 == 0 { Some((start_t >> 8) as u8) } else { None };
-            Case { machine, rate, volume, beeper, ay, segs, idle_units, frames, drain, start_t, reassert_settings_before_frame }
+            let so = (start_t >> 12) as u64;
+            let fr = frames as u64;
+            let sound_off = if fr >= 3 && so % 4 == 0 {
+                let a = (so >> 2) % (fr - 1);
+                let b = a + 1 + (so >> 8) % (fr - 1 - a);
+                Some((a as u8, b as u8))
+            } else {
+                None
+            };
+            Case { machine, rate, volume, beeper, ay, segs, idle_units, frames, drain, start_t, reassert_settings_before_frame, sound_off }
         })
 }
 
@@ -317,7 +357,7 @@ pub fn replay(run: &mut Run, phase: &str, case: &serde_json::Value) -> Result<()
 }
 
 pub const LEVEL: &str = "exploration";
-pub const RULE: &str = "case = machine x sample rate 8000..384000 (biased to 8000, 11025, 44100, 48000, 384000 and rates not divisible by 50) x volume 0..100 x beeper/AY enables x looping DI program of 0..30 (delay, OUT (0xFE),A with any value) segments incl. bursts faster than one sample and frames without any write x 1..6 frames x drain behaviour {all, never, part}; a third of the machines are created with sound generation off and have it switched on before the first frame; in a third of the cases the host re-asserts its current settings (set_ay_enabled / set_sound / set_fast_load with the values in force) before one of the frames, which must not change the sound. Drain-all: the cumulative number of samples after f frames must be f*floor(rate/50) exactly; with only the beeper on, every sample must equal the level of a speaker/MIC state that was current within one sample period of its frame time k*T_frame/floor(rate/50) — the states and their times come from the reference machine's ULA write log, the four levels from calibration runs at the same settings; levels monotone in EAR then MIC, left = right, level at volume v = level at volume 100 * v/100, volume 0 exactly silent, everything finite. Never/partial drain: the queue stays below two frames' worth. non-trivial = judged run with >= 2 speaker writes at least two samples apart at a rate other than 44100 (or any never/partial-drain run); distinct = hash of the case";
+pub const RULE: &str = "case = machine x sample rate 8000..384000 (biased to 8000, 11025, 44100, 48000, 384000 and rates not divisible by 50) x volume 0..100 x beeper/AY enables x looping DI program of 0..30 (delay, OUT (0xFE),A with any value) segments incl. bursts faster than one sample and frames without any write x 1..6 frames x drain behaviour {all, never, part}; a third of the machines are created with sound generation off and have it switched on before the first frame; in a third of the cases the host re-asserts its current settings (set_ay_enabled / set_sound / set_fast_load with the values in force) before one of the frames, which must not change the sound; in a quarter of the runs of three or more frames the host switches sound off before one frame and on again before a later one (what is delivered in between is not judged; afterwards every frame must again deliver exactly its own samples). Drain-all: every frame must deliver floor(rate/50) samples exactly; with only the beeper on, every sample must equal the level of a speaker/MIC state that was current within one sample period of its frame time k*T_frame/floor(rate/50) — the states and their times come from the reference machine's ULA write log, the four levels from calibration runs at the same settings; levels monotone in EAR then MIC, left = right, level at volume v = level at volume 100 * v/100, volume 0 exactly silent, everything finite. Never/partial drain: the queue stays below two frames' worth. non-trivial = judged run with >= 2 speaker writes at least two samples apart at a rate other than 44100 (or any never/partial-drain run); distinct = hash of the case";
 pub const ASSUMPTIONS: &[&str] = &[
     "write timestamps from the reference machine (trusted through calibration, C03, C04)",
     "the absolute level constants are not assumed: they are measured on a calibration machine with the same settings",
